@@ -253,6 +253,19 @@ theorem goodE_evalM (fetch : Nat → St → Res (Nat × St)) (hf : ∀ j s, EvOK
       cases hr2 : evalM fetch b s1 with
       | error p => rw [hr2] at hb; exact hb
       | ok r2 => obtain ⟨y, s2⟩ := r2; rw [hr2] at hb; exact hb
+  | gate c a ihc iha =>
+    intro s h
+    have hc := ihc s h
+    unfold evalM
+    cases hr : evalM fetch c s with
+    | error p => rw [hr] at hc; exact hc
+    | ok r =>
+      obtain ⟨x, s1⟩ := r
+      rw [hr] at hc
+      simp only
+      split
+      · exact iha s1 hc
+      · exact hc
   | ite k a b iha ihb =>
     intro s h
     unfold evalM
